@@ -424,6 +424,57 @@ Proof.
   induction 1 as [|[k v] d H Hd IH]; cbn; [reflexivity|]. cbn in H. unfold dmapv in IH. rewrite H, IH. reflexivity.
 Qed.
 
+Lemma dmapv_dmapv {U V W : Type} (f : U -> V) (g : V -> W) (d : dict U) :
+  dmapv g (dmapv f d) = dmapv (fun u => g (f u)) d.
+Proof. unfold dmapv. rewrite map_map. reflexivity. Qed.
+
+Lemma dmapv_ext {V W : Type} (f g : V -> W) (d : dict V) :
+  (forall v, f v = g v) -> dmapv f d = dmapv g d.
+Proof. intros H. unfold dmapv. apply map_ext. intros [k v]. cbn. rewrite H. reflexivity. Qed.
+
+(** ** keeping the entries whose key passes a test: [{k: v for k, v in d.items() if f(k)}] *)
+
+Section DFilter.
+  Context {V : Type}.
+
+  Definition dfilter (f : str -> bool) (d : dict V) : dict V :=
+    filter (fun kv : str * V => f (fst kv)) d.
+
+  Lemma dget_dfilter f d k : dget (dfilter f d) k = if f k then dget d k else None.
+  Proof.
+    induction d as [|[k' v] d IH]; cbn; [destruct (f k); reflexivity|].
+    destruct (f k') eqn:Fk'; cbn.
+    - destruct (str_eqb k k') eqn:E.
+      + apply str_eqb_eq in E. subst. rewrite Fk'. reflexivity.
+      + apply IH.
+    - destruct (str_eqb k k') eqn:E.
+      + apply str_eqb_eq in E. subst. rewrite Fk' in *. apply IH.
+      + apply IH.
+  Qed.
+
+  Lemma dmem_dfilter f d k : dmem (dfilter f d) k = f k && dmem d k.
+  Proof. unfold dmem. rewrite dget_dfilter. destruct (f k); reflexivity. Qed.
+
+  Lemma dkeys_dfilter f d : dkeys (dfilter f d) = filter f (dkeys d).
+  Proof.
+    induction d as [|[k' v] d IH]; cbn; [reflexivity|].
+    unfold dkeys, dfilter in IH. destruct (f k'); cbn; rewrite IH; reflexivity.
+  Qed.
+
+  Lemma dfilter_true f d : (forall k, In k (dkeys d) -> f k = true) -> dfilter f d = d.
+  Proof.
+    intros H. apply filter_all_true. intros [k v] Hkv. cbn. apply H.
+    unfold dkeys. apply in_map_iff. exists (k, v). auto.
+  Qed.
+End DFilter.
+
+Lemma dfilter_dmapv {V W : Type} (f : str -> bool) (g : V -> W) (d : dict V) :
+  dfilter f (dmapv g d) = dmapv g (dfilter f d).
+Proof.
+  induction d as [|[k v] d IH]; cbn; [reflexivity|].
+  destruct (f k); cbn; unfold dfilter, dmapv in IH; rewrite IH; reflexivity.
+Qed.
+
 (** ** folds of writes *)
 
 Section Folds.
